@@ -397,7 +397,7 @@ func TestVerif_C18(t *testing.T) {
 				continue
 			}
 			if kit.Thorough() {
-				if e.Sparse != ((ti+ei)%2 == 0) || rng.Float64() >= 0.4 {
+				if e.Sparse != ((ti+ei)%2 == 0) || rng.Float64() >= 0.3 {
 					continue
 				}
 			} else if p := quickP; rng.Float64() >= func() float64 {
